@@ -647,7 +647,8 @@ def run_C05(ctx: Ctx) -> Result:
                                                               "column": o["token"]["column"], "type": o["token"]["type"]}))
     # language header spellings
     hdr = []
-    for name in names[:: ctx.n(4, 1)] + ["xx", "EN", "en-", "no-such", "fr2", "v1", "français", "en_US", "é", "fr é", "zh-CN", "en!", "1"]:
+    for name in names[:: ctx.n(4, 1)] + ["xx", "EN", "en-", "no-such", "fr2", "v1", "français", "en_US", "é", "fr é", "zh-CN", "en!", "1",
+                                         "ſv", "Kn", "fı", "İt", "zh_CN", "en_au", "sr_Cyrl", "en_Scouse", "mk_Latn", "cy_GB", "EN-AU"]:
         for form in ["#language:%s", "# language: %s", "  #  language  :  %s  ", "#language : %s x", "# Language: %s",
                      "#language:%s\r", " # language:　%s"]:
             hdr.append(("Language", "en", "en", 0, None, (form % name) + "\n"))
